@@ -30,7 +30,8 @@ EXTENDS Integers, Sequences, FiniteSets, TLC, Json
 
 CONSTANTS MaxOps,      \* operator nodes per tree (exactly)
           OpSet,       \* "all" or "core": which operator classes are used
-          Atoms,       \* "simple": identifiers and literals; "rich": also sub-query, EXISTS, array subscript, interval
+          Atoms,       \* "simple": identifiers and literals; "shifted": the same starting with a literal;
+                       \* "rich": also sub-query, EXISTS, array subscript, interval
           Emit
 
 \* ---- abstract syntax ----------------------------------------------------------------
@@ -67,8 +68,10 @@ IsAtom(t) == t.T \in AtomTypes
 AtomAt(k) == IF Atoms = "rich" /\ k % 2 = 0
              THEN (CASE (k \div 2) % 4 = 1 -> SubQ [] (k \div 2) % 4 = 2 -> ArrSub [] (k \div 2) % 4 = 3 -> ExistsQ [] OTHER -> Itv)
              ELSE
-             CASE k % 7 = 1 -> Id("a") [] k % 7 = 2 -> Lit("1", "int") [] k % 7 = 3 -> Id("b")
-               [] k % 7 = 4 -> Lit("x", "string") [] k % 7 = 5 -> QId("t", "c") [] k % 7 = 6 -> Lit("2.5", "float")
+             \* "shifted": the rotation starts one place later, so that the FIRST leaf is a literal
+             LET j == IF Atoms = "shifted" THEN k + 1 ELSE k IN
+             CASE j % 7 = 1 -> Id("a") [] j % 7 = 2 -> Lit("1", "int") [] j % 7 = 3 -> Id("b")
+               [] j % 7 = 4 -> Lit("x", "string") [] j % 7 = 5 -> QId("t", "c") [] j % 7 = 6 -> Lit("2.5", "float")
                [] OTHER -> Id("d")
 
 \* ---- operator classes -----------------------------------------------------------------------
